@@ -8,6 +8,7 @@ from ..engine import flow
 from ..engine.mutate import Mutant, Variant, in_function, replace_once
 from ..engine.runner import Rule
 from ..engine.source import AnalysisError
+from . import C07
 from .common import callee_name, calls_in
 
 EXPLANATION = (
@@ -259,9 +260,11 @@ RULES = [
     Rule("R-C05-4", "journal before effect", rule_journal, min_instances=2),
     Rule("R-C05-5", "connection settings", rule_connection, min_instances=4),
     Rule("R-C05-6", "consistency is checked at every open", rule_open_check, min_instances=2),
+    Rule("R-C05-7", "the cleanup of a completed build does not depend on what this session happened to execute", C07.rule_sequence, min_instances=3),
 ]
 
 MUTANTS = [
+    Mutant("delete-detached-only-after-runs", "builder.py", in_function("Builder.finalize", replace_once("            async with self.db:\n                self.workflow.delete_detached()\n", "            if self.scheduler.run_counter > 0:\n                async with self.db:\n                    self.workflow.delete_detached()\n")), ("R-C05-7",)),
     Mutant("sql-outside-region", "director.py", in_function("DirectorHandler.hold_dispatch", lambda s: s.replace("        async with self.db:\n            step = self.scheduler.get_job_step(job_i)\n            step.hold()\n", "        step = self.scheduler.get_job_step(job_i)\n        step.hold()\n") if "step.hold()" in s else None), ("R-C05-1",)),
     Mutant("nested-region", "executor.py", in_function("Executor._finalize_failed_run", replace_once("            run.step.mark_completed(None, False)\n", "            run.step.mark_completed(None, False)\n            await self._flush_step_counts()\n")), ("R-C05-1",)),
     Mutant("split-completion", "executor.py", in_function("Executor.try_skip_job", lambda s: s.replace("            self.workflow.update_file_hashes(new_out_hashes, cause=HashUpdateCause.SUCCEEDED)\n            step.mark_completed(new_hash, False)\n", "            self.workflow.update_file_hashes(new_out_hashes, cause=HashUpdateCause.SUCCEEDED)\n        async with self.db:\n            step.mark_completed(new_hash, False)\n") if "step.mark_completed(new_hash, False)" in s else None), ("R-C05-2",)),
